@@ -98,6 +98,73 @@ func evalC19Scripted(c c19Scripted) *Failure {
 	return nil
 }
 
+// c19Shutdown: the server is stopped from INSIDE a command (an application executor such as SHUTDOWN calls Server.Stop or
+// Restart); the calling connection and a bystander are closed, the registry is empty, the call returns.
+type c19Shutdown struct {
+	Call       string `json:"call"`       // stop | restart
+	Bystanders int    `json:"bystanders"` // idle connections besides the caller
+	Before     int    `json:"before"`     // requests the caller has been answered before
+}
+
+func evalC19Shutdown(c c19Shutdown) *Failure {
+	srv, _ := newRecServer()
+	srv.SetPort(0)
+	returned := make(chan error, 1)
+	srv.RegisterExexutor("SHUTDOWN", func(conn *redis.Conn, cmd string, args redis.Arguments) (*redis.Message, error) {
+		var err error
+		if c.Call == "restart" {
+			err = srv.Restart()
+		} else {
+			err = srv.Stop()
+		}
+		returned <- err
+		return redis.NewOKMessage(), nil
+	})
+	if err := srv.Start(); err != nil {
+		return failf("harness|start", "Start: %v", err)
+	}
+	what := fmt.Sprintf("an executor calls Server.%s from inside its command; %d idle bystanders, caller answered %d requests before", c.Call, c.Bystanders, c.Before)
+	hung := false
+	defer func() {
+		if !hung {
+			srv.Stop()
+		}
+	}()
+	m, err := connsim.NewMulti(srv, 1+c.Bystanders, serveTimeout())
+	if err != nil {
+		return failf("harness|multi", "%v", err)
+	}
+	for i := 0; i < c.Before; i++ {
+		if _, _, err := m.Step(0, resp.Cmd("GET", "k").Bytes()); err != nil {
+			return stallFailure("c19", what)
+		}
+	}
+	m.Conns[0].Feed(resp.Cmd("SHUTDOWN").Bytes())
+	select {
+	case <-returned:
+	case <-time.After(20 * time.Second):
+		hung = true
+		return failf("c19|stop-hangs", "%s: the call did not return within 20s (%d connections registered)", what, len(srv.Conns()))
+	}
+	// every connection that was open at the call is closed by the server and its loop ends
+	for i := range m.Conns {
+		deadline := time.Now().Add(10 * time.Second)
+		for m.Outcome(i) == nil && time.Now().Before(deadline) {
+			time.Sleep(time.Millisecond)
+		}
+		if m.Outcome(i) == nil {
+			return failf("c19|client-not-closed|stop-from-handler", "%s: the loop of connection %d has not ended 10s after the call returned (socket closed: %v)", what, i, m.Conns[i].Closed())
+		}
+		if !m.Conns[i].Closed() {
+			return failf("c19|socket-not-closed|stop-from-handler", "%s: connection %d was not closed", what, i)
+		}
+	}
+	if n := len(srv.Conns()); n != 0 {
+		return failf("c19|registry-entry-left|stop-from-handler", "%s: %d connections are still registered", what, n)
+	}
+	return nil
+}
+
 // (2) real sockets: churn plans
 
 type c19ConnSpec struct {
@@ -493,6 +560,7 @@ func evalC19Plan(p c19Plan) *Failure {
 
 func init() {
 	register("c19.scripted", evalC19Scripted)
+	register("c19.shutdown", evalC19Shutdown)
 	register("c19.plan", evalC19Plan)
 }
 
@@ -501,11 +569,23 @@ var _ = io.EOF
 func TestC19(t *testing.T) {
 	h := newHarness(t, "C19", "ending modes {FIN at a request boundary, FIN inside a request at every sampled offset, full close, QUIT with requests pipelined behind it, malformed frame at a random position, write failure after N bytes, rejected certificate} x position in a pipeline on scripted connections "+
 		"(exact cut offsets and write failures injected deterministically; Close calls counted), and churn plans on real loopback TCP/TLS: 1..32 connections in flight mixing {FIN, FIN mid-request, RST (linger 0), QUIT, malformed frame, peer that stops reading then resets, "+
-		"QUIT / malformed frame with the client keeping its own end open, TLS ok, TLS without certificate, TLS with a rejected name, garbage on the TLS port, idle until Server.Stop, leaving on their own exactly when Stop sweeps, TLS handshake never started until Stop}. Oracle: per connection the socket is closed (client sees EOF/reset), the loop returned and the registry entry is gone; per plan, after a settle budget of 15 s (what is judged is the final state), "+
+		"QUIT / malformed frame with the client keeping its own end open, TLS ok, TLS without certificate, TLS with a rejected name, garbage on the TLS port, idle until Server.Stop, leaving on their own exactly when Stop sweeps, TLS handshake never started until Stop}. A further scenario stops or restarts the server from inside a command (an application executor calling Server.Stop/Restart) with idle bystanders. Oracle: per connection the socket is closed (client sees EOF/reset), the loop returned and the registry entry is gone; per plan, after a settle budget of 15 s (what is judged is the final state), "+
 		"the server goroutine count, len(Conns()) and the /proc/self/fd count are back at the values sampled before the plan. A third of the plans that end with Stop first reconfigure a listening port at run time (SetPort(0)/SetTLSPort(0), or CONFIG SET port|tls-port by a client): Stop must still return and release everything. One fixed plan accumulates 90 (thorough: 600) failing TLS handshakes on one server, then well-behaved clients, then Stop. Thorough: up to 10^4 connection endings per plan in repeated cycles. "+
 		"Non-trivial: the plan mixes >=3 ending modes with >=4 connections in flight (scripted: an ending other than FIN at a boundary). Distinct = distinct case.")
 	defer h.Finish()
 	h.Probes()
+
+	if h.Shard == 0 {
+		for _, call := range []string{"stop", "restart"} {
+			for _, by := range []int{0, 1, 3} {
+				for _, before := range []int{0, 2} {
+					c := c19Shutdown{Call: call, Bystanders: by, Before: before}
+					h.Col.Case(true, []byte(fmt.Sprint("shutdown", c)), "stop-from-inside-a-command")
+					h.Report("c19.shutdown", c, evalC19Shutdown(c))
+				}
+			}
+		}
+	}
 
 	h.Rapid("scripted", h.N(8000, 300000), func(rt *rapid.T) {
 		pc, _ := genPipeline(rt, h.Avoid, 5, false)
